@@ -1,12 +1,14 @@
 """C14 — build constraints mean the same thing to avo and to the Go toolchain."""
 
-THEOREM_MODULES = ["AvoVerif.Props.C14", "AvoVerif.Props.C14Tables", "AvoVerif.Props.C14Bounds"]
+THEOREM_MODULES = ["AvoVerif.Props.C14", "AvoVerif.Props.C14Tables", "AvoVerif.Props.C14Bounds", "AvoVerif.Props.C14Hist"]
 
 
 def _nontrivial(req, resp):
     # a formula with at least two terms / options / lines, or a text with a separator
     head = req.split(" ", 3)
     tok = head[2] if req.startswith("accept-tags") and len(head) > 2 else (head[1] if len(head) > 1 else "")
+    if req.startswith(("hist", "accept-hist")):
+        return req.count(" P.") >= 2  # a history with at least two prints
     return any(ch in tok for ch in ",+;") or (req.startswith(("parse", "tcline", "ctx")) and len(tok) > 4)
 
 
@@ -24,6 +26,18 @@ def _floors(ctx, tag, n):
         "BigFormulas": 13, "TermRequests": 400, "BadUTF8Terms": 5, "ParseRequests": n // 4, "ParseErrors": 10,
         "TclineRequests": n // 4, "CtxRequests": n // 8, "AvoValidCodepoints": 100000,
         "ParseJudged": n // 2, "CtxFormulas": n // 40,
+        # call histories (c14hist.go): the same *ir.File printed again after its constraints changed (directly after its
+        # own last print / with another file printed in between), after a clear, set again after a clear, both printer
+        # orders around a change, a new file in the place of a printed one, every route of change
+        "HistRequests": n // 16, "HistPrints": n // 4, "HistPrintsAsm": n // 10, "HistPrintsStub": n // 10,
+        "HistPrintsFormat": n // 40, "HistReprintChanged": n // 32, "HistReprintChangedInterleaved": n // 400,
+        "HistReprintCleared": n // 200, "HistReprintSetAgain": n // 500, "HistChangedAsmThenStub": n // 200,
+        "HistChangedStubThenAsm": n // 200, "HistReprintUnchanged": n // 16, "HistReallocPrinted": n // 800,
+        "HistRawSet": n // 50, "HistRawAppend": n // 300, "HistRawExpr": n // 300, "HistCtxConstraints": n // 40,
+        "HistCtxConstraint": n // 250, "HistCtxConstraintExpr": n // 250, "HistCtxRefused": n // 250,
+        "HistCtxGlobalRoutes": n // 80, "HistInPlaceLine": n // 160, "HistInPlaceTerm": n // 160,
+        "HistAfterInPlace": n // 100, "HistClears": n // 80, "HistFilesRaw": n // 100, "HistFilesHand": n // 100,
+        "HistFilesCtx": n // 40,
     }
     for key, lo in floors.items():
         got = st.get(key, 0)
@@ -35,12 +49,14 @@ def _floors(ctx, tag, n):
     # files that could not be printed / judged by go/build are legitimate only for the listed findings (F8d, F8e)
     if st.get("PrinterErrors", 0) > 2 * (st.get("FormatErrors", 0) + 4):
         ctx.obligation_failures.append((f"{tag}: printer errors", f"{st.get('PrinterErrors')} printer errors vs {st.get('FormatErrors')} Format errors"))
+    if st.get("HistInvalidAtPrint", 0) * 20 > st.get("HistPrints", 0):
+        ctx.obligation_failures.append((f"{tag}: histories", f"{st.get('HistInvalidAtPrint')} of {st.get('HistPrints')} prints in histories were not judged (invalid set in the file)"))
     ctx.coverage.setdefault("sample_floors", {})[tag] = floors
 
 
 def run(ctx):
     # only the shared core + this property's Go files: other people's half-edited files cannot break the check
-    if not ctx.build_harness(["c14.go", "gen_tagchars.go"]):
+    if not ctx.build_harness(["c14.go", "c14hist.go", "gen_tagchars.go"]):
         return
     # the toolchain's tag characters and strings.Fields separators, measured on every run
     ctx.regen([("Oracle/TagChars", "TagChars")])
@@ -91,7 +107,18 @@ def run(ctx):
         "parsed constraint means what the toolchain reads from the same text, all assignments of its words), `// +build` "
         "comment lines (well-formed and malformed) vs the toolchain model, formulas at the toolchain's complexity limits "
         "(100 operators per line, 1000 operands), build.Context.ConstraintExpr sequences (exact; accept-ctx: a Context "
-        "without errors holds a valid set; that set then goes through the whole formula check). Sample floors "
+        "without errors holds a valid set; that set then goes through the whole formula check). CALL HISTORIES in one process "
+        "(n/16 generated + 7 fixed; Model/TagsHist, Props/C14Hist): up to four files side by side (bare ir.NewFile, a "
+        "hand-built file with functions, files of a build.Context changed through its methods or through the package-level "
+        "functions) over 2-4 tags; 8-22 operations: set / append / parse-and-append (directly on the ir.File, or "
+        "Context.Constraints / Constraint / ConstraintExpr, one in 8 with an invalid input the Context must refuse), "
+        "replace a line or a term IN PLACE, clear, print with the assembly printer / the stub printer / buildtags.Format "
+        "directly (a change is usually followed by 1-3 prints), drop the file (runtime.GC) and allocate a new one in its "
+        "place; `hist` compares exactly, per print, the class of the header, Evaluate and the toolchain's decisions on the "
+        "header lines EXTRACTED FROM THE REAL OUTPUT (leading comment region only) on all assignments, and the constraints "
+        "the file holds, plus the error count per Context, with the state machine of Model/TagsHist; `accept-hist` (acceptHist, "
+        "theorem acceptHist_sound) demands on every print that go/build/constraint on the extracted header and go/build "
+        "MatchFile on the printed file agree with avo's Evaluate of the constraints the file holds at that moment. Sample floors "
         "(coverage.sample_floors) per stream and per file shape. non-trivial = at least two terms/options/lines")
     ctx.assumptions += [
         "go >= 1.18 syntax file is active (plusbuild=false, gobuild=true; recorded in the input distribution, not judged: "
@@ -115,6 +142,9 @@ def run(ctx):
         "model's strings are sequences of code points",
         "Evaluate on INVALID sets (an invalid term is false) is outside the property text; it is compared exactly with the "
         "model as behaviour of the code",
+        "histories: a new printer object is made for every print (as build.Generate and avogen do); re-using one printer "
+        "object for two prints concatenates both outputs in the unchanged code (prnt.Generator is never reset) and is not "
+        "exercised; address re-use of a collected *ir.File is attempted (drop + runtime.GC + allocate) but not forced",
     ]
     ctx.trusted += [
         "Oracle.tagRanges / Oracle.spaceCodes are measured from go/build/constraint.Parse and strings.Fields of the installed "
